@@ -28,7 +28,14 @@ Fixpoint run_group (w : world) (evs : list event) (code : Z) (der : bool) : opti
   | e :: evs' =>
       match step true w e with
       | Some (w', r) =>
-          run_group w' evs' (if code =? 0 then err_code r else code) (der && derivedb w e)
+          (* broker calls: the first error is the call's result; operator groups: the
+             outcome of the last event (a lost Txn followed by the next read is not an
+             error of the publish; giving up after the fifth conflict is) *)
+          let code' := match e with
+                       | OStart _ | OGet | OTxn => err_code r
+                       | _ => if code =? 0 then err_code r else code
+                       end in
+          run_group w' evs' code' (der && derivedb w e)
       | None => None
       end
   end.
